@@ -64,7 +64,7 @@ def main():
         },
         "engines": [
             {"name": "tzmir", "path": "/verif/tzmir", "serves_properties": sorted(claims), "kind_free_text": "rustc_private driver exporting items, ADTs, trait-solver facts, polymorphic and monomorphic MIR with resolved callees and evaluated constants as JSON facts"},
-            {"name": "tzverif", "path": "/verif/tzverif", "serves_properties": sorted(claims), "kind_free_text": "Python static-analysis engines over the fact files: E-FX effects/ownership, E-TY type facts, E-EQ cross-configuration equivalence, E-AI abstract interpreter over monomorphic MIR, E-PATH CFG path rules, E-W compile-fail witnesses"},
+            {"name": "tzverif", "path": "/verif/tzverif", "serves_properties": sorted(claims), "kind_free_text": "Python static-analysis engines over the fact files: E-FX effects/ownership, E-TY type facts, E-EQ cross-configuration equivalence, E-AI abstract interpreter over monomorphic MIR, E-PATH CFG path rules, E-FLOW derived-only-from dataflow, E-SCALE time-scale qualifier inference (unification based), E-W compile-fail witnesses"},
         ],
         "checks": checks,
         "not_applicable": not_app,
